@@ -254,6 +254,9 @@ def run(ctx: Ctx) -> None:
     wiring_rule(ctx, "R09.wire", which=("data",))
     from ..wiring import metrics_identity_rule
     metrics_identity_rule(ctx, "R09.metrics")
+    # hit or miss is decided by set index and tag: two spellings of one address (wrapped / unwrapped) must decode alike (C03's rule)
+    from .c03 import addr_rule
+    addr_rule(ctx, "R09.addr")
 
 
 LOADS = {"LB": "read_byte", "LH": "read_halfword", "LW": "read_word", "LBU": "read_byte", "LHU": "read_halfword"}
